@@ -323,6 +323,11 @@ func c03Handwritten() []string {
 		// redeclaration in the same scope, undefined read, undefined assignment
 		Lines(Var("a", "1"), Print("a"), Var("a", "2"), Print("a")),
 		Lines(Print("1"), Print("q")), Lines(Print("1"), "q = 2;", Print("3")),
+		// a function declared two or three blocks deep keeps every enclosing block's bindings alive after all of them ended
+		Lines(Var("keep", "nil"), For(Var("i", "0"), "i < 2", "i = i + 1", "{ "+Var("outerv", "i * 10")+" "+If(True(), "{ "+Var("innerv", "1")+" "+Fun("cb", "", " "+Ret("outerv + innerv + i")+" ")+" keep = cb; }")+" }"), Print("keep()"), Print("keep()"), Print(BI("len", "[1, 2]"))),
+		Lines(Var("keep", "nil"), "{ "+Var("a1", `"A"`)+" { "+Var("b1", `"B"`)+" { "+Fun("deep", "x", " "+Ret("a1 + b1 + x")+" ")+" keep = deep; } } }", Print(`keep("1")`), "{ "+Var("other", "5")+" "+Print("other")+" }", Print(`keep("2")`)),
+		Lines(Var("hs", "[nil, nil]"), Var("n", "0"), While("n < 2", "{ "+Var("lv", "n + 100")+" "+IfElse("n == 0", "{ "+Fun("h0", "", " "+Ret("lv")+" ")+" hs[0] = h0; }", "{ "+Fun("h1", "", " lv = lv + 1; "+Ret("lv")+" ")+" hs[1] = h1; }")+" n = n + 1; }"), Print("hs[0]()"), Print("hs[1]()"), Print("hs[1]()"), Print("n")),
+		Lines(Fun("reg", "", " "+Var("cfg", "7")+" { { "+Fun("cbk", "", " "+Ret("cfg * 2")+" ")+" "+Ret("cbk")+" } } "), Var("c1", "reg()"), Print("c1()"), Var("c2", "reg()"), Print("c2() + c1()")),
 		// a function declared in an inner scope shadows, never replaces, an outer binding of its name
 		Lines(Fun("greet", "", " "+Ret(`"outer"`)+" "), "{ "+Fun("greet", "", " "+Ret(`"inner"`)+" ")+" "+Print("greet()")+" }", Print("greet()")),
 		Lines(Var("h", "1"), Fun("f", "", " "+Fun("h", "", " "+Ret("2")+" ")+" "+Ret("h()")+" "), Print("f()"), Print("h")),
